@@ -225,6 +225,25 @@ def n15_errmsg(toks, counts):
 
 
 
+def n16_unreachable(toks, counts):
+    """N16: `unreachable!("message", args..)` -> `unreachable!()`: the message is not semantics (Verus accepts only the
+    bare form, which it treats as `assert(false)`: the site must be PROVED unreachable)."""
+    out = []
+    i, n = 0, len(toks)
+    while i < n:
+        t = toks[i]
+        if is_id(t, "unreachable") and i + 2 < n and is_p(toks[i + 1], "!") and is_p(toks[i + 2], "(") and match_close(toks, i + 2) > i + 3:
+            close = match_close(toks, i + 2)
+            out.extend([t, toks[i + 1], toks[i + 2], toks[close].clone(trivia="")])
+            counts["N16"] = counts.get("N16", 0) + 1
+            i = close + 1
+            continue
+        out.append(t)
+        i += 1
+    return out
+
+
+
 def n6_debug_assert(toks, counts):
     out = []
     i, n = 0, len(toks)
@@ -789,6 +808,7 @@ def apply_all(toks, repo, opts, notes):
         toks = drop_tokens(toks, set(opts["drop"]), counts)
     toks = n6_debug_assert(toks, counts)
     toks = n14_mut_self(toks, counts)
+    toks = n16_unreachable(toks, counts)
     if opts.get("n15"):
         toks = n15_errmsg(toks, counts)
     if opts.get("n13"):
